@@ -26,6 +26,17 @@ CHECKS.update({
    text="Exploration. Undecodable CDR, unknown representation ids and disposes with never-seen key hashes are injected at head/middle/tail positions; every take form must return within a CPU-time budget, report or skip the bad change once, and deliver every intelligible change exactly once.",
    note="A call is judged hung when it burns > 2 s of thread CPU time; a shard whose call hangs is abandoned and restarted after the culprit.", ref="3/C09"),
 })
+CHECKS.update({
+ "C02": dict(engine="E-WIRE/Link", technique="runtime monitoring: bounded-progress oracle (convergence within R rounds after faults stop, then silence) over a real Writer and real Reader joined by a fault-injecting link in logical time",
+   text="Exploration. A real Writer+DataWriter and a real Reader+DataReader exchange captured datagrams through a link that drops, duplicates and delays in both directions during a faulty phase; afterwards fault-free rounds must bring the reader to hold every sample the writer holds for it, the writer to see ack base = last+1, and then three further rounds must be silent. Liveness is restated as bounded progress in protocol rounds.",
+   note="Logical time (timers fired explicitly, 10 s assembly GC cannot fire); writer KeepAll without cleaning; one reader; bound R = 3 + 2*held rounds.", ref="3/C02"),
+ "C04": dict(engine="E-WIRE/WriterBench", technique="runtime monitoring: per-destination capture of everything a real Writer sends, judged against a shadow of writes/ACKNACKs (retention, bound after cleaning, every request answered by bytes or GAP, HEARTBEAT truth, single-reader privacy)",
+   text="Exploration. Scripted populations of fake readers (none, best-effort only, reliable, mixed, churn, late joiners) drive a real Writer with writes (some to_single_reader, some fragmented), arbitrary ACKNACKs, match/loss, heartbeat ticks, cleaning and repair-to-quiescence; all datagrams are decoded independently and compared with what was written.",
+   note="Limit = History depth capped at the hard-coded 32; NACKFRAG-driven partial repair is exercised through C02's link, not here; dispose payload bytes are not compared.", ref="3/C04"),
+ "C20": dict(engine="E-WIRE/WriterBench", technique="runtime monitoring: model of pending reliable readers vs the return value / completion of the real wait_for_acknowledgments (sync on a thread with measured time, async under executor discipline)",
+   text="Exploration. Random histories of match/loss/write/ACKNACK (boundary bases last and last+1) around the call; success only when the model's pending set is empty, prompt success when it is, timeout not before the requested time, async future re-polled only when its waker fired.",
+   note="False yes is looked for during 3 ms windows and at the end; upper completion bound is a watchdog (8 s), not a verdict.", ref="3/C20"),
+})
 NOT_YET = {}
 
 def main():
@@ -57,6 +68,8 @@ def main():
         },
         "engines": [
             {"name": "E-WIRE/ReaderBench", "path": "/verif/incrate/rbench.rs + /verif/harness/vcheck/src/rdr.rs", "serves_properties": ["C01", "C03", "C05"], "kind_free_text": "deterministic single-thread protocol bench: hand-built Reader+MessageReceiver wired to real DataReader flavours; datagrams injected as bytes, replies captured at the UDPSender tap"},
+            {"name": "E-WIRE/WriterBench", "path": "/verif/incrate/wbench.rs + hooks_writer.rs + /verif/harness/vcheck/src/{wtr,wfa}.rs", "serves_properties": ["C04", "C20"], "kind_free_text": "hand-built Writer wired to a real DataWriter; fake readers as byte-level ACKNACK sources; timers replaced by explicit steps"},
+            {"name": "E-WIRE/Link", "path": "/verif/harness/vcheck/src/link.rs", "serves_properties": ["C02", "C05"], "kind_free_text": "WriterBench and ReaderBench joined by a drop/dup/delay link in logical time"},
             {"name": "E-API", "path": "/verif/harness/vcheck/src/api.rs", "serves_properties": ["C08", "C09"], "kind_free_text": "reference model of DDS sample/view/instance semantics in lock-step with a real DataReader fed through ReaderBench; subprocess shards with CPU-time watchdog for C09"},
         ],
         "checks": checks,
